@@ -307,6 +307,9 @@ Not decided: the folding of FROM set expressions (unions/intersections) and seri
         ctx.floor("C15.sets/subset-list-sites", sites, 3);
     }
 
+    // ---- set operators ----
+    ops(m, ctx);
+
     // ---- rendering ----
     if let Some(f) = anchor_fn(m, ctx, "C15.render", Some("Rasn"), "format_alphabet_annotations", None) {
         let b = tok(&f.block);
@@ -376,6 +379,270 @@ Not decided: the folding of FROM set expressions (unions/intersections) and seri
         let pren = b.find("permitted_alphabet.charset_subsets()");
         if !matches!((pfin, pren), (Some(a), Some(c)) if a < c) {
             ctx.violate("C15.render", "finalize-before-render", &f.file, f.line, "the subsets must be sorted (finalize()) before they are rendered");
+        }
+    }
+}
+
+fn subset(v: &(char, char)) -> Val {
+    if v.0 == v.1 {
+        Val::Ctor("Single".into(), vec![Val::Char(v.0)], BTreeMap::new())
+    } else {
+        let mut f = BTreeMap::new();
+        f.insert("from".to_string(), Val::some(Val::Char(v.0)));
+        f.insert("to".to_string(), Val::some(Val::Char(v.1)));
+        Val::Ctor("Range".into(), vec![], f)
+    }
+}
+
+fn alphabet(ranges: &[(char, char)]) -> Val {
+    let mut f = BTreeMap::new();
+    f.insert("charset_subsets".to_string(), Val::List(ranges.iter().map(subset).collect()));
+    f.insert("character_by_index".to_string(), Val::Opaque("character_by_index".into()));
+    f.insert("index_by_character".to_string(), Val::none());
+    f.insert("string_type".to_string(), Val::ctor("IA5String"));
+    Val::Ctor("PerVisibleAlphabetConstraints".into(), vec![], f)
+}
+
+/// the set of characters (restricted to the probe universe) an abstract alphabet value denotes
+fn denotation(v: &Val) -> Result<std::collections::BTreeSet<char>, String> {
+    let Val::Ctor(_, _, f) = v else { return Err(format!("not an alphabet: {}", v.show())) };
+    let Some(Val::List(l)) = f.get("charset_subsets") else { return Err("alphabet without charset_subsets list".into()) };
+    let mut out = std::collections::BTreeSet::new();
+    let ch = |v: Option<&Val>, dflt: char| -> Result<char, String> {
+        match v {
+            Some(Val::Ctor(s, p, _)) if s == "Some" => match p.first() { Some(Val::Char(c)) => Ok(*c), o => Err(format!("range end {:?}", o.map(|x| x.show()))) },
+            Some(Val::Ctor(s, _, _)) if s == "None" => Ok(dflt),
+            o => Err(format!("range end {:?}", o.map(|x| x.show()))),
+        }
+    };
+    for s in l {
+        match s {
+            Val::Ctor(n, p, _) if n == "Single" => match p.first() { Some(Val::Char(c)) => { out.insert(*c); } o => return Err(format!("Single({:?})", o.map(|x| x.show()))) },
+            Val::Ctor(n, _, f) if n == "Range" => {
+                let (a, b) = (ch(f.get("from"), '\0')?, ch(f.get("to"), '\u{7f}')?);
+                for c in ('\0'..='\u{7f}').filter(|c| *c >= a && *c <= b) {
+                    out.insert(c);
+                }
+            }
+            o => return Err(format!("subset {}", o.show())),
+        }
+    }
+    Ok(out)
+}
+
+/// C15.ops: a set operation inside FROM, and serially applied constraints, denote what their operator says.
+fn ops(m: &Model, ctx: &mut Ctx) {
+    let consts_base = const_resolver(m);
+    let consts = |n: &str| -> Option<Val> {
+        match n {
+            "char::MAX" => Some(Val::Char(char::MAX)),
+            _ => consts_base(n),
+        }
+    };
+    let operands: Vec<(&str, Vec<(char, char)>)> = vec![
+        ("a..z", vec![('a', 'z')]),
+        ("a..c", vec![('a', 'c')]),
+        ("x", vec![('x', 'x')]),
+        ("abc", vec![('a', 'a'), ('b', 'b'), ('c', 'c')]),
+        ("a..c|x", vec![('a', 'c'), ('x', 'x')]),
+        ("c..k", vec![('c', 'k')]),
+        ("0..9", vec![('0', '9')]),
+    ];
+    let inl = inline_all(m, &["PerVisibleAlphabetConstraints"]);
+    // `+=` on alphabets is the union the crate implements in AddAssign: evaluated from its own body
+    let add_assign = m.fns.iter().find(|f| f.name == "add_assign" && f.self_ty.as_deref() == Some("PerVisibleAlphabetConstraints"));
+    let hook = |ev: &Evaluator, name: &str, args: &[Val]| -> Option<Result<Val, String>> {
+        match name {
+            ".max" | ".min" => match (args.first(), args.get(1)) {
+                (Some(Val::Char(a)), Some(Val::Char(b))) => Some(Ok(Val::Char(if name == ".max" { *a.max(b) } else { *a.min(b) }))),
+                _ => None,
+            },
+            ".retain" => match args.first() {
+                Some(Val::Opaque(_)) => Some(Ok(Val::Unit)),
+                _ => None,
+            },
+            ".append" => match (args.first(), args.get(1)) {
+                (Some(Val::Opaque(_)), _) => Some(Ok(Val::Unit)),
+                _ => None,
+            },
+            "op:add_assign" => {
+                let f = add_assign?;
+                let mut env = Env::new();
+                env.insert("self".into(), args[0].clone());
+                let p = f.sig.inputs.iter().filter_map(|a| match a { syn::FnArg::Typed(t) => Some(tok(&t.pat)), _ => None }).next().unwrap_or("rhs".into());
+                env.insert(p, args[1].clone());
+                Some(ev.eval_fn_body(&f.block, &mut env).and_then(|_| env.get("self").cloned().ok_or("self lost".into())))
+            }
+            // operands are passed as marker strings: Some(&"a..z") -> the alphabet of that operand
+            "from_subtype_elem" | "Self::from_subtype_elem" | "try_new" | "Self::try_new" | "PerVisibleAlphabetConstraints::try_new" => {
+                let marker = match args.first() {
+                    Some(Val::Ctor(s, p, _)) if s == "Some" => p.first().cloned(),
+                    Some(o) => Some(o.clone()),
+                    None => None,
+                };
+                match marker {
+                    Some(Val::Str(mk)) if mk == "invisible" => Some(Ok(Val::Ctor("Ok".into(), vec![Val::none()], BTreeMap::new()))),
+                    Some(Val::Str(mk)) => {
+                        let r: Vec<(char, char)> = match mk.as_str() {
+                            "a..z" => vec![('a', 'z')],
+                            "a..c" => vec![('a', 'c')],
+                            "x" => vec![('x', 'x')],
+                            "abc" => vec![('a', 'a'), ('b', 'b'), ('c', 'c')],
+                            "a..c|x" => vec![('a', 'c'), ('x', 'x')],
+                            "c..k" => vec![('c', 'k')],
+                            "0..9" => vec![('0', '9')],
+                            _ => return Some(Err(format!("unknown operand marker {}", mk))),
+                        };
+                        Some(Ok(Val::Ctor("Ok".into(), vec![Val::some(alphabet(&r))], BTreeMap::new())))
+                    }
+                    _ => None,
+                }
+            }
+            _ => None,
+        }
+    };
+    let ev = Evaluator { consts: &consts, call_hook: &hook, inline: Some(&inl) };
+    let den = |r: &[(char, char)]| denotation(&alphabet(r)).unwrap();
+
+    // (1) the intersection primitive, if the crate has one, is exact
+    let isect = m.fns.iter().find(|f| f.self_ty.as_deref() == Some("PerVisibleAlphabetConstraints") && f.name == "intersect");
+    if let Some(f) = isect {
+        ctx.func(&f.key);
+        let p = f.sig.inputs.iter().filter_map(|a| match a { syn::FnArg::Typed(t) => Some(tok(&t.pat)), _ => None }).next().unwrap_or("rhs".into());
+        for (ln, l) in &operands {
+            for (rn, r) in &operands {
+                let key = format!("intersect:{}^{}", ln, rn);
+                ctx.oblige("C15.ops", &key, true);
+                let mut env = Env::new();
+                env.insert("self".into(), alphabet(l));
+                env.insert(p.clone(), alphabet(r));
+                match ev.eval_fn_body(&f.block, &mut env).and_then(|_| denotation(env.get("self").unwrap_or(&Val::Unit))) {
+                    Ok(got) => {
+                        let want: std::collections::BTreeSet<char> = den(l).intersection(&den(r)).cloned().collect();
+                        if got != want {
+                            ctx.violate("C15.ops", "intersect-exact", &f.file, f.line, &format!("intersect({}, {}) denotes {:?}, the intersection is {:?}", ln, rn, got.iter().collect::<String>(), want.iter().collect::<String>()));
+                        }
+                    }
+                    Err(e) => ctx.fail_closed("C15.ops", &format!("[{}]: {}", key, e)),
+                }
+            }
+        }
+    }
+
+    // (2) a set operation `base <op> operant` inside FROM
+    let setop = |base: &str, op: &str, operant: Val| {
+        let mut f = BTreeMap::new();
+        f.insert("base".to_string(), Val::Str(base.into()));
+        f.insert("operator".to_string(), Val::ctor(op));
+        f.insert("operant".to_string(), operant);
+        Val::Ctor("SetOperation".into(), vec![], f)
+    };
+    let elem = |mk: &str| Val::Ctor("Element".into(), vec![Val::Str(mk.into())], BTreeMap::new());
+    let nested = |v: Val| Val::Ctor("SetOperation".into(), vec![v], BTreeMap::new());
+    let Some(fse) = m.fns.iter().find(|f| f.self_ty.as_deref() == Some("PerVisibleAlphabetConstraints") && f.name == "from_subtype_elem") else {
+        ctx.fail_closed("C15.ops", "anchor not found: PerVisibleAlphabetConstraints::from_subtype_elem");
+        return;
+    };
+    ctx.func(&fse.key);
+    // the arm of from_subtype_elem for PermittedAlphabet is evaluated with the set operation as its payload
+    type Set = std::collections::BTreeSet<char>;
+    let u = |a: &Set, b: &Set| -> Set { a.union(b).cloned().collect() };
+    let i = |a: &Set, b: &Set| -> Set { a.intersection(b).cloned().collect() };
+    let az = den(&[('a', 'z')]);
+    let ac = den(&[('a', 'c')]);
+    let x = den(&[('x', 'x')]);
+    let ck = den(&[('c', 'k')]);
+    let d09 = den(&[('0', '9')]);
+    let cases: Vec<(&str, Val, Option<Set>)> = vec![
+        ("a..z ^ a..c", setop("a..z", "Intersection", elem("a..c")), Some(i(&az, &ac))),
+        ("a..c ^ c..k", setop("a..c", "Intersection", elem("c..k")), Some(i(&ac, &ck))),
+        ("a..c | x", setop("a..c", "Union", elem("x")), Some(u(&ac, &x))),
+        ("abc | 0..9", setop("abc", "Union", elem("0..9")), Some(u(&ac, &d09))),
+        ("a..z EXCEPT x (X.691 10.3.21: EXCEPT ignored)", setop("a..z", "Except", elem("x")), Some(az.clone())),
+        ("a..c EXCEPT x", setop("a..c", "Except", elem("x")), Some(ac.clone())),
+        ("a..c | x | 0..9", setop("a..c", "Union", nested(setop("x", "Union", elem("0..9")))), Some(u(&u(&ac, &x), &d09))),
+        ("0..9 | a..z ^ c..k", setop("0..9", "Union", nested(setop("a..z", "Intersection", elem("c..k")))), Some(u(&d09, &ck))),
+        ("a..z ^ a..c|x ^ c..k", setop("a..z", "Intersection", nested(setop("a..c|x", "Intersection", elem("c..k")))), Some(i(&u(&ac, &x), &ck))),
+        ("a..c | <not PER-visible> (10.3.21: not PER-visible)", setop("a..c", "Union", elem("invisible")), None),
+        ("a..c ^ <not PER-visible> (10.3.21: ignored)", setop("a..c", "Intersection", elem("invisible")), Some(ac.clone())),
+    ];
+    for (what, so, want) in cases {
+        let key = format!("FROM ({})", what);
+        ctx.oblige("C15.ops", &key, true);
+        let pa = Val::Ctor("PermittedAlphabet".into(), vec![Val::Ctor("SetOperation".into(), vec![so], BTreeMap::new())], BTreeMap::new());
+        let params: Vec<String> = fse.sig.inputs.iter().filter_map(|a| match a { syn::FnArg::Typed(t) => Some(tok(&t.pat)), _ => None }).collect();
+        let mut env = Env::new();
+        env.insert(params.first().cloned().unwrap_or("element".into()), Val::some(pa));
+        env.insert(params.get(1).cloned().unwrap_or("string_type".into()), Val::ctor("IA5String"));
+        let got = ev.eval_fn_body(&fse.block, &mut env).and_then(|r| match r {
+            Val::Ctor(ok, p, _) if ok == "Ok" => match p.first() {
+                Some(Val::Ctor(s, q, _)) if s == "Some" => denotation(q.first().unwrap_or(&Val::Unit)).map(Some),
+                Some(Val::Ctor(s, _, _)) if s == "None" => Ok(None),
+                o => Err(format!("result {:?}", o.map(|x| x.show()))),
+            },
+            o => Err(format!("result {}", o.show())),
+        });
+        match got {
+            // an empty union identity wrapped around "not PER-visible" is the same as no alphabet
+            Ok(g) => {
+                let g2 = g.clone().filter(|s| !s.is_empty());
+                if g2 != want.clone().filter(|s| !s.is_empty()) {
+                    ctx.violate("C15.ops", &format!("set-operation:{}", what.split(' ').nth(1).unwrap_or("?")), &fse.file, fse.line,
+                        &format!("{} denotes {:?}; by its operators it is {:?}", key, g.map(|s| s.iter().collect::<String>()), want.map(|s| s.iter().collect::<String>())));
+                }
+            }
+            Err(e) => ctx.fail_closed("C15.ops", &format!("[{}]: {}", key, e)),
+        }
+    }
+
+    // (3) serially applied constraints intersect: every fn that folds try_new over a list of constraints
+    let serial: Vec<&crate::model::FnInfo> = m.fns.iter().filter(|f| f.krate == "rasn-compiler" && !f.module.contains("tests") && f.name != "try_new" && {
+        let b = tok(&f.block);
+        b.contains("PerVisibleAlphabetConstraints::try_new(") || (b.contains("Self::try_new(") && f.self_ty.as_deref() == Some("PerVisibleAlphabetConstraints"))
+    }).collect();
+    // a fold nobody calls is not on the path to the annotation
+    let invoked: std::collections::BTreeSet<String> = m.fns.iter().filter(|f| f.krate == "rasn-compiler" && !f.module.contains("tests")).flat_map(|f| model::invoked_names(&f.block)).collect();
+    let serial: Vec<&crate::model::FnInfo> = serial.into_iter().filter(|f| invoked.contains(&f.name)).collect();
+    ctx.floor("C15.ops/serial-folds", serial.len(), 1);
+    for f in serial {
+        ctx.func(&f.key);
+        let params: Vec<String> = f.sig.inputs.iter().filter_map(|a| match a { syn::FnArg::Typed(t) => Some(tok(&t.pat)), _ => None }).collect();
+        // only folds over a constraint *list* parameter are evaluated; others are reported for audit
+        let list_param = f.sig.inputs.iter().filter_map(|a| match a { syn::FnArg::Typed(t) if tok(&t.ty).contains("[Constraint]") || tok(&t.ty).contains("Vec<Constraint>") => Some(tok(&t.pat)), _ => None }).next();
+        let Some(lp) = list_param else {
+            ctx.oblige("C15.ops", &format!("serial:{}:delegates", f.name), true);
+            if tok(&f.block).contains("+=") {
+                ctx.violate("C15.ops", &format!("serial-union:{}", f.name), &f.file, f.line, &format!("`{}` combines the alphabets of several constraints with `+=` (union); serially applied constraints intersect", f.name));
+            }
+            continue;
+        };
+        for (what, list, want) in [
+            ("(FROM a..z)(FROM a..c)", vec!["a..z", "a..c"], i(&az, &ac)),
+            ("(FROM a..c)(FROM c..k)", vec!["a..c", "c..k"], i(&ac, &ck)),
+            ("(FROM a..z)(SIZE ..)(FROM a..c|x)", vec!["a..z", "invisible", "a..c|x"], u(&ac, &x)),
+            ("(FROM a..c)", vec!["a..c"], ac.clone()),
+            ("(SIZE ..)", vec!["invisible"], Set::new()),
+        ] {
+            let key = format!("serial:{}:{}", f.name, what);
+            ctx.oblige("C15.ops", &key, true);
+            let mut env = Env::new();
+            for p in &params {
+                env.insert(p.clone(), Val::ctor("IA5String"));
+            }
+            env.insert(lp.clone(), Val::List(list.iter().map(|s| Val::Str(s.to_string())).collect()));
+            let got = ev.eval_fn_body(&f.block, &mut env).and_then(|r| match r {
+                Val::Ctor(ok, p, _) if ok == "Ok" => denotation(p.first().unwrap_or(&Val::Unit)),
+                o => denotation(&o),
+            });
+            match got {
+                Ok(g) => {
+                    if g != want {
+                        ctx.violate("C15.ops", &format!("serial:{}", f.name), &f.file, f.line,
+                            &format!("{} applied serially denotes {:?} in `{}`; serial constraints intersect: {:?}", what, g.iter().collect::<String>(), f.name, want.iter().collect::<String>()));
+                    }
+                }
+                Err(e) => ctx.fail_closed("C15.ops", &format!("[{}]: {}", key, e)),
+            }
         }
     }
 }
